@@ -239,10 +239,13 @@ pub fn run(subj: Box<dyn Subject>) -> EndKind {
             Act::Op(o) => {
                 with(|w| w.ops_left -= 1);
                 let s = subj.as_mut().unwrap();
+                with(|w| w.op_depth = 1);
                 let r = catch_unwind(AssertUnwindSafe(|| {
                     s.do_op(o);
+                    with(|w| w.op_depth = 0);
                     s.after_step();
                 }));
+                with(|w| w.op_depth = 0);
                 if let Err(p) = r {
                     let m = panic_message(&p);
                     with(|w| w.violate(home, || format!("group operation {} panicked: {}", o, m)));
@@ -417,10 +420,12 @@ pub fn run(subj: Box<dyn Subject>) -> EndKind {
     // -------------------------------------------------------------------- drop + sweep
     with(|w| w.ev(Ev::DropSubject));
     let mut s = subj.take().unwrap();
+    with(|w| w.op_depth = 1);
     let r = catch_unwind(AssertUnwindSafe(|| {
         s.finish();
         drop(s);
     }));
+    with(|w| w.op_depth = 0);
     if let Err(p) = r {
         let m = panic_message(&p);
         with(|w| w.violate(2, || format!("dropping the subject panicked: {}", m)));
